@@ -9,6 +9,10 @@ Ties to /repo, re-run on every check:
     pipes; the feasible orders are enumerated by the Lean model), in two
     gating modes; canonical outputs must be identical to the ungated run;
   * the same stages in subprocesses under PYTHONHASHSEED in {0,1,2,random};
+  * host independence: the mapping with n_processors in {17, 24, 40} (more
+    than this machine's cores), chunk_size large: chunks as documented for the
+    configured count, output equal to the run with the equivalent explicit
+    chunk_size; one run under a simulated 2-core host;
   * the mapping under worker counts that induce the same chunks (the chunk
     list is read from the hook trace and compared with the model);
   * re_order_blob against the Lean model on generated blobs (incl. missing
@@ -16,6 +20,7 @@ Ties to /repo, re-run on every check:
     tables listed in two different orders (sorted by reference index);
   * the translator's merge discipline for every stage (Generated/Skeleton).
 """
+import contextlib
 import itertools
 import json
 import os
@@ -228,6 +233,130 @@ def check_nproc(ctx, st, prob_seed, n_leaves, base_np, base):
                 ctx.violation('C04/correspondence/chunks',
                               'correspondence procs.chunks no longer checks',
                               detail, found_input=False)
+
+
+@contextlib.contextmanager
+def simulated_cores(n):
+    """make the host look like an `n`-core machine to the harness process (and
+    to the workers it forks)"""
+    import multiprocessing
+    saved = (multiprocessing.cpu_count, os.cpu_count,
+             getattr(os, 'sched_getaffinity', None),
+             getattr(os, 'process_cpu_count', None))
+    multiprocessing.cpu_count = lambda: n
+    os.cpu_count = lambda: n
+    if saved[2] is not None:
+        os.sched_getaffinity = lambda pid=0: set(range(n))
+    if saved[3] is not None:
+        os.process_cpu_count = lambda: n
+    try:
+        yield
+    finally:
+        multiprocessing.cpu_count, os.cpu_count = saved[0], saved[1]
+        if saved[2] is not None:
+            os.sched_getaffinity = saved[2]
+        if saved[3] is not None:
+            os.process_cpu_count = saved[3]
+
+
+def traced_run(ctx, st, n_proc, detail):
+    """one mapping run with the hook trace on: (chunks, canonical output)"""
+    c14suite.clear(st)
+    trace = st.d / 'trace_host'
+    os.environ['CELL_TYPE_MAPPER_VERIF_TRACE'] = str(trace)
+    try:
+        run_plain(st, n_proc, ctx, detail)
+    finally:
+        os.environ.pop('CELL_TYPE_MAPPER_VERIF_TRACE', None)
+    ev = read_trace(trace)
+    chunks = sorted([e['r0'], e['r1']] for e in ev if e['kind'] == 'chunk')
+    return chunks, canon_of(st, 'mapping')
+
+
+def check_host(ctx, prob_seed, procs=(17, 24, 40), simulate=True, st=None):
+    """"the result depends only on inputs, configuration and seed, not on the
+    host": (i) with a large `chunk_size` the row chunks are the documented
+    ones for the *configured* n_processors, also when it exceeds the number of
+    cores of this machine; (ii) the output equals that of a run with the
+    equivalent explicit chunk_size and 2 processes (same chunks => identical
+    mapping); (iii) a run under a simulated 2-core host equals the
+    unpatched run"""
+    if st is None:
+        prob = c14suite.make_problem(prob_seed, 5)
+        with pipeline.workdir('ctmverif_c04_') as d:
+            with pipeline.quiet():
+                st = stagefix.HOST_FIXTURE(prob, d)
+            return check_host(ctx, prob_seed, procs, simulate, st)
+    n_rows = len(st.prob.query_ids)
+    big = type(st).chunk_size
+    for p in procs:
+        detail = {'kind': 'host', 'prob_seed': prob_seed, 'n_processors': p,
+                  'n_rows': n_rows, 'chunk_size': big,
+                  'host_cores': os.cpu_count()}
+        eff = min(max(1, -(-n_rows // p)), big)
+        st.chunk_size = big
+        chunks, got = traced_run(ctx, st, p, detail)
+        ctx.case(('host', prob_seed, p), sample=detail)
+        ctx.count('host:n_processors=%d' % p)
+        want = [[r0, min(n_rows, r0 + eff)] for r0 in range(0, n_rows, eff)]
+        detail['chunks'] = chunks
+        if chunks != want:
+            detail['documented_chunks'] = want
+            ctx.violation('C04/nproc/chunks-not-documented',
+                          'n_processors=%d on a %s-core host, %d cells, '
+                          'chunk_size=%d: row chunks have size %r, the '
+                          'documented chunking min(chunk_size, ceil(n_rows/'
+                          'n_processors)) gives %d'
+                          % (p, os.cpu_count(), n_rows, big,
+                             sorted(set(b - a for a, b in chunks)), eff),
+                          dict(detail))
+        elif ctx.driver_ok:
+            m = ctx.model('procs.chunks', {'nRows': n_rows, 'nProc': p,
+                                           'chunkSize': big})
+            if m['chunks'] != chunks:
+                ctx.disagreements_checked += 1
+                detail['model'] = m
+                detail['broken'] = 'correspondence CTM.Procs.chunks/effChunk ' \
+                                   '~ run_type_assignment_on_h5ad_cpu'
+                ctx.violation('C04/correspondence/chunks',
+                              'correspondence procs.chunks no longer checks',
+                              dict(detail), found_input=False)
+        # the documented chunks asked for explicitly, 2 processes
+        st.chunk_size = eff
+        d2 = dict(detail)
+        d2['n_processors'] = 2
+        d2['chunk_size'] = eff
+        chunks2, ref = traced_run(ctx, st, 2, d2)
+        st.chunk_size = big
+        if ref != got:
+            detail['reference'] = {'n_processors': 2, 'chunk_size': eff,
+                                   'chunks': chunks2}
+            detail['differs_in'] = diff_keys(ref, got)[:8]
+            ctx.violation('C04/nproc/output-differs',
+                          'mapping with n_processors=%d, chunk_size=%d and '
+                          'with n_processors=2, chunk_size=%d (the same '
+                          'documented chunks) give outputs that differ in %s'
+                          % (p, big, eff, detail['differs_in']), detail)
+    if simulate:
+        detail = {'kind': 'host', 'prob_seed': prob_seed, 'n_processors': 4,
+                  'n_rows': n_rows, 'chunk_size': big, 'simulated_cores': 2}
+        st.chunk_size = big
+        chunks, plain = traced_run(ctx, st, 4, detail)
+        with simulated_cores(2):
+            chunks_s, sim = traced_run(ctx, st, 4, detail)
+        ctx.case(('host-sim', prob_seed), sample=detail)
+        ctx.count('host:simulated-2-cores')
+        if chunks_s != chunks or sim != plain:
+            detail['chunks'] = chunks
+            detail['chunks_simulated'] = chunks_s
+            detail['differs_in'] = diff_keys(plain, sim)[:8]
+            ctx.violation('C04/host/output-depends-on-core-count',
+                          'mapping with n_processors=4: on a host that '
+                          'reports 2 cores the chunks are %r sized instead '
+                          'of %r and the output differs in %s'
+                          % (sorted(set(b - a for a, b in chunks_s)),
+                             sorted(set(b - a for a, b in chunks)),
+                             detail['differs_in']), detail)
 
 
 def check_reorder(ctx, rng, n_cases):
@@ -533,6 +662,7 @@ def run(ctx):
     rng = ctx.rng
     check_reorder(ctx, rng, 300 if ctx.tier == 'quick' else 2000)
     check_marker_cache_order(ctx, rng, 40 if ctx.tier == 'quick' else 300)
+    check_host(ctx, rng.randrange(2 ** 31))
     if ctx.tier == 'quick':
         run_problem(ctx, rng.randrange(2 ** 31), rng.choice([7, 8]), 3,
                     n_orders=5, hash_seeds=['0', '1', '2', '3'],
@@ -579,6 +709,12 @@ def replay(ctx, data, from_corpus=False):
                 if canon_of(st, d['fixture']) != base:
                     ctx.violation('C04/rerun/%s/output-differs'
                                   % d['fixture'], 'replayed', d)
+    elif kind == 'host':
+        if d.get('simulated_cores'):
+            check_host(ctx, d['prob_seed'], procs=(), simulate=True)
+        else:
+            check_host(ctx, d['prob_seed'], procs=(d['n_processors'],),
+                       simulate=False)
     elif kind == 'cache_order':
         with pipeline.workdir('ctmverif_c04_') as wd:
             cache_case(ctx, wd, d)
